@@ -1,6 +1,6 @@
 (* pqref commands of the dataset models (C19, C18, C07, C09). *)
 From Coq Require Import NArith ZArith List String Bool.
-From Pq Require Import Base.Bytes Dataset.FS Dataset.Crash Extract.Sx.
+From Pq Require Import Base.Bytes Impl.KV Dataset.FS Dataset.Crash Dataset.Append Extract.Sx.
 Import ListNotations.
 Open Scope string_scope.
 
@@ -47,5 +47,21 @@ Definition h_fs_run (a : list sx) : sx :=
   | _ => err "arity"
   end.
 
+(* (append_seq before (chunk ...)) : the single-file append model on the recorded write chunks *)
+Definition h_append_seq (a : list sx) : sx :=
+  match a with
+  | [f; chunks] =>
+    match as_bytes f, as_list_of as_bytes chunks with
+    | Some f, Some chunks =>
+      match footer_loc false f with
+      | Some loc => SL [snat loc; SB (seq_write f loc chunks)]
+      | None => SL []
+      end
+    | _, _ => err "args"
+    end
+  | _ => err "arity"
+  end.
+
 Definition table : list (string * handler) :=
-  [("safe_trace", h_safe_trace); ("no_write", h_no_write); ("fs_run", h_fs_run)].
+  [("safe_trace", h_safe_trace); ("no_write", h_no_write); ("fs_run", h_fs_run);
+   ("append_seq", h_append_seq)].
